@@ -40,7 +40,7 @@ func (c16) Describe() engine.Info {
 			"Oracle: 162 cycles after the last start OAM holds, byte for byte, a value the source byte had during that transfer; reads of FE00-FEFF return FF from cycle 2 to 160 of a running transfer (0, 1, 161: either) and data / 00 afterwards; nothing else changes OAM. Signature = (source region, restarted?, restart phase class, source changed during transfer?)." +
 			" The LCD may be switched (or LCDC rewritten) while the transfer runs. Environment dimensions as C12. One scenario in eight (after the sweep) first stores a value F2-FF and replaces that transfer within 161 cycles by a proper one, which is judged; one in five stores into OAM cells from the CPU while the transfer runs (LCD off), aimed at the cell being copied: 162 cycles all the same.",
 		Assumptions:    []string{"LCD off (OAM otherwise plain) in two thirds of the scenarios; in the others the LCD is on, OAM is read only while the transfer blocks it, and the result is judged through the side-effect-free accessor; the CPU is parked in high RAM", "a source byte changed while the copy runs may be copied old or new"},
-		RequiredProbes: []string{"lcd_switched_during_transfer", "oam_read_during_transfer_in_mode2", "dma_started", "dma_restarted_while_running", "source_changed_during_transfer", "oam_read_during_transfer", "echo_source", "out_of_range_value_then_restart", "oam_store_during_transfer"},
+		RequiredProbes: []string{"lcd_switched_during_transfer", "oam_read_during_transfer_in_mode2", "dma_started", "dma_restarted_while_running", "source_changed_during_transfer", "oam_read_during_transfer", "echo_source", "out_of_range_value_then_restart", "oam_store_during_transfer", "pointer_traffic_during_transfer", "cartridge_clock_halted"},
 		RealComponents: realComponents, StubComponents: stubComponents,
 		Sweeps: []string{"every source page 00-F1 (indices 0..241)"},
 	}
@@ -50,6 +50,15 @@ func (c16) Generate(r *engine.Rand, index int, tier string) *engine.Scenario {
 	sc := &engine.Scenario{Class: "dma"}
 	sc.Cart = engine.CartSpec{Kind: "mbc1", Type: cart.TypeFor("mbc1", true), RomCode: 2, RamCode: 3, Program: "18fe", FillSeed: r.U64()}
 	sc.SetP("fill", int64(r.U64()>>1))
+	if index%7 == 3 {
+		// an MBC3 cartridge with its clock running or halted, or an MBC5: the transfer is the same
+		if r.Chance(2, 3) {
+			sc.Cart.Kind, sc.Cart.Type = "mbc3", 0x10
+			sc.SetP("rtc_halt", int64(r.Intn(2)))
+		} else {
+			sc.Cart.Kind, sc.Cart.Type = "mbc5", 0x1b
+		}
+	}
 	page := uint8(r.Intn(0xf2))
 	if index < 0xf2 {
 		page = uint8(index)
@@ -136,6 +145,19 @@ func (c16) Generate(r *engine.Rand, index int, tier string) *engine.Scenario {
 		sc.SetP("lcd_lead", int64(r.Range(1, 600)))
 	}
 	sc.Cycles = sc.Events[len(sc.Events)-1].At + 200
+	if index%10 == 9 && sc.P("oam_stores", 0) == 0 {
+		// the CPU is busy with a register pair that points into OAM (INC DE / DEC DE) during the first
+		// cycles of the last transfer, LCD on: whatever that does to OAM rows, the transfer copies over
+		// them afterwards and OAM ends up holding the source bytes
+		sc.Class = "dma-pointer-traffic"
+		sc.SetP("lcd", 1)
+		if sc.P("lcd_lead", 0) == 0 {
+			sc.SetP("lcd_lead", int64(r.Range(1, 600)))
+		}
+		sc.SetP("ptr_traffic", int64(r.Range(1, 2)))
+		sc.SetP("ptr_at", 0xfe08+int64(r.Intn(0x98)))
+		sc.SetP("env.park", 0)
+	}
 	if index%40 == 7 {
 		// long after the transfer: the source page is rewritten and nothing is started for more than
 		// 65,536 machine cycles; OAM keeps what was copied
@@ -195,6 +217,13 @@ func (c16) Execute(sc *engine.Scenario) *engine.Result {
 		oamInit[i] = fr.Byte()
 	}
 	m.OAM.VerifPoke(oamInit)
+	if sc.Cart.Kind == "mbc3" && sc.P("rtc_halt", 0) != 0 {
+		for _, w := range [][2]int{{0x0000, 0x0a}, {0x4000, 0x0c}, {0xa000, 0x40}, {0x4000, 0x00}} {
+			m.Write(uint16(w[0]), uint8(w[1]))
+			ct.Write(uint16(w[0]), uint8(w[1]))
+		}
+		res.Probe("cartridge_clock_halted")
+	}
 	park(sc, m, res)
 	lcdOn := sc.P("lcd", 0) != 0
 	if lcdOn {
@@ -242,6 +271,7 @@ func (c16) Execute(sc *engine.Scenario) *engine.Result {
 		return "echo"
 	}
 	restarted, changed := false, false
+	trafficPending := 0
 	invalid := false          // the running transfer was started with a value outside 00-F1: not judged
 	phase := ""
 	dg := engine.NewDigest()
@@ -316,6 +346,24 @@ func (c16) Execute(sc *engine.Scenario) *engine.Result {
 		}
 	}
 	m.OnCycle = func() {
+		if trafficPending > 0 && running && m.N-start <= 3 && m.CPU.VerifAtBoundary() && !m.CPU.VerifHalted() && !m.CPU.VerifStopped() {
+			// the parked CPU turns to a short run of INC DE / DEC DE with DE inside OAM, then parks again
+			code := []byte{}
+			for i := 0; i < trafficPending; i++ {
+				code = append(code, 0x13, 0x1b)
+			}
+			code = append(code, 0x18, 0xfe)
+			for i, b := range code {
+				m.Write(0xfff0+uint16(i), b)
+			}
+			rg := m.CPU.VerifGetRegs()
+			p := uint16(sc.P("ptr_at", 0xfe50))
+			rg.D, rg.E, rg.PC = uint8(p>>8), uint8(p), 0xfff0
+			m.CPU.VerifSetRegs(rg)
+			trafficPending = 0
+			res.Probe("pointer_traffic_during_transfer")
+			res.Fault("cpu_pointer_traffic")
+		}
 		if running {
 			snapshot()
 		}
@@ -350,6 +398,9 @@ func (c16) Execute(sc *engine.Scenario) *engine.Result {
 				}
 				running = true
 				start = m.N
+				if n := int(sc.P("ptr_traffic", 0)); n > 0 && !invalidNext(sc.Events[ei:]) {
+					trafficPending = n
+				}
 				invalid = ev.V >= 0xf2
 				if invalid {
 					res.Probe("out_of_range_value_then_restart")
@@ -427,6 +478,17 @@ func (c16) Execute(sc *engine.Scenario) *engine.Result {
 	res.Cycles = m.N
 	res.Digest = uint64(dg)
 	return res
+}
+
+// invalidNext reports whether another transfer is started by one of the remaining events (pointer
+// traffic goes with the last transfer of a schedule only).
+func invalidNext(rest []engine.Event) bool {
+	for _, e := range rest {
+		if e.S == "dma" {
+			return true
+		}
+	}
+	return false
 }
 
 func keys(m map[uint8]bool) []string {
